@@ -466,7 +466,9 @@ class SolverState(object):
             elif how == 'dill':
                 import dill
                 s2 = dill.loads(dill.dumps(s))
-            elif how == 'periodic' and self.dump_fresh:
+            elif how == 'periodic' and self.dump_fresh and self.kind != 'PW':
+                # (not Powell: it logs - and dumps - a generation late, see C06; its restart file holds an earlier,
+                # consistent state, which this model of 'the solver is replaced as it is now' cannot follow)
                 from mystic.solvers import LoadSolver
                 path = os.path.join(self.ctx.mkdtemp(), 'dump.pkl')
                 with open(path, 'wb') as fh: fh.write(self.dump_bytes)
